@@ -18,16 +18,24 @@ package bifrost_rpc
 
 //@ func (*RpcServiceController).HandleDirective
 //@   requires c.rc != nil
-//@   loop 1 invariant !matched && (forall j int trigger c.serviceIdPrefixes[j] :: 0 <= j && j <= rangeindex ==> !hasPrefix(serviceID, c.serviceIdPrefixes[j]))
+//@   loop 1 invariant !matched && stripPrefix == "" && (forall j int trigger c.serviceIdPrefixes[j] :: 0 <= j && j <= rangeindex ==> !hasPrefix(serviceID, c.serviceIdPrefixes[j]))
 //@   ensures ret1 == nil
 //@   ensures implements(inst.GetDirective(), LookupRpcService) ==> ((len(ret0) != 0) <==> rpcServiceMatch(c, as(inst.GetDirective(), LookupRpcService).LookupRpcServiceID(), as(inst.GetDirective(), LookupRpcService).LookupRpcServerID()))
 //@   ensures !implements(inst.GetDirective(), LookupRpcService) ==> len(ret0) == 0
+// the prefix remembered for stripping is a configured prefix that this service ID starts with (or none),
+// and whenever some configured prefix matches, a matching one is remembered
+//@   assert at call directive.R: stripPrefix == "" || ((stripPrefix in c.serviceIdPrefixes) && hasPrefix(serviceID, stripPrefix))
+//@   assert at call directive.R: (exists i int :: 0 <= i && i < len(c.serviceIdPrefixes) && hasPrefix(serviceID, c.serviceIdPrefixes[i])) ==> (exists k int :: 0 <= k && k < len(c.serviceIdPrefixes) && hasPrefix(serviceID, c.serviceIdPrefixes[k]) && stripPrefix == c.serviceIdPrefixes[k])
 
 // The transform wraps the invoker so that the configured prefixes are stripped, only when enabled.
 //@ func (*RpcServiceController).HandleDirective$1
 //@   noframe
 //@   nosweep nil-deref
-//@   assert at call srpc.NewPrefixInvoker: c.stripServiceIdPrefix && same(arg1, c.serviceIdPrefixes)
+// (C35: 'the handler sees the request with exactly the matched prefix removed': the invoker strips one
+// prefix - the one this lookup matched - never the whole configured list, which would turn away a
+// lookup that matched through the pattern or the list)
+//@   assert at call? srpc.NewPrefixInvoker: c.stripServiceIdPrefix && len(arg1) == 1
+//@   assert at call? srpc.NewPrefixInvoker: arg1[0] == stripPrefix && stripPrefix != ""
 
 // An invoker registration with prefixes answers exactly the service IDs that start with one of them.
 //@ func (*InvokerController).HandleDirective
